@@ -38,7 +38,7 @@ PROPS = {
     "C13": dict(engine="muxsim", quick=dict(plain=40000, race=6000, det=300), thorough=dict(plain=1500000, race=200000, det=2000)),
     "C15": dict(engine="muxsim", quick=dict(plain=60000, race=0, det=300), thorough=dict(plain=5000000, race=20000, det=2000)),
     "C10": dict(engine="muxsim", quick=dict(plain=12000, race=0, det=100), thorough=dict(plain=1000000, race=30000, det=1000)),
-    "C11": dict(engine="registrysim", quick=dict(plain=4000, race=0, det=60), thorough=dict(plain=300000, race=0, det=500)),
+    "C11": dict(engine="registrysim", quick=dict(plain=6500, race=0, det=60), thorough=dict(plain=300000, race=0, det=500)),
     "C12": dict(engine="registrysim", quick=dict(plain=6000, race=1500, det=60), thorough=dict(plain=400000, race=60000, det=500)),
     "C16": dict(engine="registrysim", quick=dict(plain=8000, race=0, det=60), thorough=dict(plain=1000000, race=0, det=500)),
 }
